@@ -759,9 +759,21 @@ func c60HdrProp(c c60HdrCase, r *vp.Rec) error {
 	if g := c60HdrString(got); g != want {
 		return fmt.Errorf("ParseHeader(Marshal(h)) != h\n got  %s\n want %s\n wire %s", g, want, c60Hex(b))
 	}
+	// the icmp package's own parser for the IPv4 header quoted in an error message
+	// (on Linux the raw-socket format is the wire format)
+	got2, err := icmp.ParseIPv4Header(in)
+	if err != nil {
+		return fmt.Errorf("icmp.ParseIPv4Header failed on Marshal output: %v (%s)", err, c60Hex(b))
+	}
+	if g := c60HdrString(got2); g != want {
+		return fmt.Errorf("icmp.ParseIPv4Header(Marshal(h)) != h\n got  %s\n want %s\n wire %s", g, want, c60Hex(b))
+	}
 	// the caller's receive buffer is reused for the next packet
 	for i := range in {
 		in[i] ^= 0xa5
+	}
+	if g := c60HdrString(got2); g != want {
+		return fmt.Errorf("the header returned by icmp.ParseIPv4Header changed when the caller overwrote its input buffer\n got  %s\n want %s", g, want)
 	}
 	if g := c60HdrString(got); g != want {
 		return fmt.Errorf("the header returned by ParseHeader changed when the caller overwrote its input buffer\n got  %s\n want %s\n wire %s", g, want, c60Hex(b))
